@@ -93,8 +93,20 @@ def F(x):
 
 # ------------------------------------------------------------------ WCS family
 
-def gen_wcs(rng, projs=PROJS, frames=FRAMES, parities=(1, -1), log10_scale=(math.log10(0.01 * ARCSEC), -1.0)):
-    """a celestial WCS description; scale in deg / pixel (log-uniform)."""
+def gen_wcs(rng, projs=PROJS, frames=FRAMES, parities=(1, -1), log10_scale=(math.log10(0.01 * ARCSEC), -1.0), fine_p=0.0,
+            latfirst_p=0.2):
+    """a celestial WCS description; scale in deg / pixel (log-uniform); with probability `fine_p` a very fine pixel scale
+    (1e-3 .. 1e-2 arcsec / pixel: the ~20 mas between ICRS and FK5 J2000 is then 2-20 pixels); with probability `latfirst_p`
+    the LATITUDE is the first world axis (CTYPE1 = DEC-- / GLAT, CTYPE2 = RA--- / GLON), the same transformation otherwise."""
+    if rng.random() < fine_p:
+        log10_scale = (math.log10(1e-3 * ARCSEC), math.log10(1e-2 * ARCSEC))
+    latfirst = rng.random() < latfirst_p
+    d = _gen_wcs(rng, projs, frames, parities, log10_scale)
+    d['latfirst'] = latfirst
+    return d
+
+
+def _gen_wcs(rng, projs, frames, parities, log10_scale):
     m = rng.random()
     if m < 0.15:
         rot = float(rng.choice([0, 90, 180, -90, 45, 30]))
@@ -119,6 +131,9 @@ def build_wcs(d):
         if d['frame'] == 'fk4':
             w.wcs.equinox = 1950.0
     w.wcs.crval = [d['lon0'], d['lat0']]
+    if d.get('latfirst'):
+        w.wcs.ctype = list(w.wcs.ctype)[::-1]
+        w.wcs.crval = [d['lat0'], d['lon0']]
     w.wcs.crpix = list(d['crpix'])
     set_linear(w, d)
     w.wcs.set()
@@ -139,6 +154,16 @@ def set_linear(w, d):
     s_, p_, th = d['scale'], d['parity'], math.radians(d['rot'])
     c, sn = math.cos(th), math.sin(th)
     enc = d.get('enc', 'pc')
+    if d.get('latfirst'):
+        # latitude-first world axes: the rows of CD are exchanged (the same pixel -> sky map); written as a CD matrix or as
+        # CDELT = (s, s) with everything else in PC
+        m_ = [[s_ * sn, s_ * c], [-s_ * p_ * c, s_ * p_ * sn]]
+        if enc == 'cd':
+            w.wcs.cd = m_
+        else:
+            w.wcs.cdelt = [s_, s_]
+            w.wcs.pc = [[v / s_ for v in row] for row in m_]
+        return
     if enc == 'pc':
         w.wcs.cdelt = [-s_ * p_, s_]
         w.wcs.pc = [[c, -sn], [sn, c]]
@@ -511,10 +536,13 @@ def loc_rows(wcs, regs):
     return rows
 
 
-def tables_json(p2s, s2p, loc):
-    return {'p2s': [[frac(F(a)), frac(F(b)), frac(F(c)), frac(F(d))] for (a, b), (c, d) in p2s.items()],
+def tables_json(p2s, s2p, loc, fs=None):
+    out = {'p2s': [[frac(F(a)), frac(F(b)), frac(F(c)), frac(F(d))] for (a, b), (c, d) in p2s.items()],
             's2p': [[frac(F(a)), frac(F(b)), frac(F(c)), frac(F(d))] for (a, b), (c, d) in s2p.items()],
             'loc': [[frac(F(a)), frac(F(b))] + [frac(F(v)) for v in row] for (a, b), row in loc.items()]}
+    if fs is not None:
+        out['fs'] = [[frac(F(a)), frac(F(b)), frac(F(c)), frac(F(d))] for (a, b), (c, d) in fs.items()]
+    return out
 
 
 # ------------------------------------------------------------------ sky regions: description, build
@@ -533,6 +561,19 @@ REGION_FRAME_NAMES = ['icrs', 'fk5', 'fk4', 'galactic', 'barycentricmeanecliptic
 NONDEFAULT_ATTRS = {'fk5': [{'equinox': 'J1975'}, {'equinox': 'J2015.5'}],
                     'fk4': [{'equinox': 'B1975'}, {'equinox': 'B1950', 'obstime': 'B1975'}, {'equinox': 'B1900', 'obstime': 'J1991.25'}],
                     'barycentricmeanecliptic': [{'equinox': 'J1975'}]}
+
+
+def gen_pts_frame(rng, wd):
+    """frame in which the query positions are handed over: the WCS's own (None), or another one -- preferably the
+    near-identical partner (ICRS <-> FK5 J2000 differ by ~20 mas; FK5 of another equinox; FK4)."""
+    if rng.random() < 0.45:
+        return None
+    if wd['frame'] in ('icrs', 'fk5') and rng.random() < 0.7:
+        return rng.choice([{'name': 'fk5' if wd['frame'] == 'icrs' else 'icrs'}, {'name': 'fk5' if wd['frame'] == 'icrs' else 'icrs'},
+                           {'name': 'fk5', 'equinox': 'J1975'}, {'name': 'fk4'}])
+    if wd['frame'] == 'fk4' and rng.random() < 0.7:
+        return rng.choice([{'name': 'fk5'}, {'name': 'icrs'}, {'name': 'fk4', 'equinox': 'B1975'}])
+    return gen_region_frame(rng)
 
 
 def gen_region_frame(rng):
@@ -753,7 +794,7 @@ def edit_wcs_inplace(w, d):
     their "undefined" defaults (a new WCS has lonpole = nan, latpole = 90), otherwise wcslib keeps the stale pole (and fails
     for a cylindrical projection whose reference latitude changes sign).  The edited object must then be the SAME
     transformation as a WCS built from scratch with `d`: asserted field by field and on probe points."""
-    w.wcs.crval = [d['lon0'], d['lat0']]
+    w.wcs.crval = [d['lat0'], d['lon0']] if d.get('latfirst') else [d['lon0'], d['lat0']]
     w.wcs.crpix = list(d['crpix'])
     set_linear(w, d)           # same encoding as the warm settings (warm_wcs_desc keeps 'enc')
     w.wcs.lonpole = float('nan')
@@ -942,7 +983,7 @@ def typed_answers(sky_reg, pix_reg, skypts, pp, wcs, qshape=None):
     out = {'sky_arr': _tcall(lambda: sky_reg.contains(skypts, wcs)), 'pix_arr': _tcall(lambda: pix_reg.contains(pp))}
     one = skypts[0]
     out['sky_sc'] = _tcall(lambda: sky_reg.contains(one, wcs))
-    out['pix_sc'] = _tcall(lambda: pix_reg.contains(PixCoord.from_sky(one, wcs)))
+    out['pix_sc'] = _tcall(lambda: pix_reg.contains(PixCoord(float(np.ravel(pp.x)[0]), float(np.ravel(pp.y)[0]))))
     out['n'] = len(skypts)
     qshape = list(qshape) if qshape and int(np.prod(qshape)) <= len(skypts) else [1, len(skypts)]
     m = int(np.prod(qshape))
@@ -1028,8 +1069,14 @@ def compute(case):
         px = np.array([p[0] for p in pts], dtype=float)
         py = np.array([p[1] for p in pts], dtype=float)
         skypts = wcs.pixel_to_world(px, py)
-        ptsback = PixCoord.from_sky(skypts, wcs)
-        if not _finite(sky_points(sky), pix_points(back), lonlat(skypts)[0], lonlat(skypts)[1], ptsback.x, ptsback.y):
+        if case.get('pts_frame'):
+            # the query positions are handed over in a frame of their own (astropy's transformation, independent of regions)
+            from astropy.wcs.utils import wcs_to_celestial_frame as _wf
+            skypts = skypts.transform_to(make_frame(case['pts_frame'], _wf(wcs)))
+        ptsback = PixCoord.from_sky(skypts, wcs)            # the route SkyRegion.contains takes
+        xi_, yi_ = wcs.world_to_pixel(skypts)               # the WCS image of the positions: the independent expectation
+        pind = (np.ravel(xi_).astype(float), np.ravel(yi_).astype(float))
+        if not _finite(pind[0], pind[1]) or not _finite(sky_points(sky), pix_points(back), lonlat(skypts)[0], lonlat(skypts)[1], ptsback.x, ptsback.y):
             return {'real': {'finite': False}, 'req': None}      # outside the domain of the WCS: no statement
         ty = typed_answers(sky, reg, skypts, PixCoord(px, py), wcs, case.get('qshape'))
         ty['pix_sc'] = typed(reg.contains(PixCoord(float(px[0]), float(py[0]))))     # the original position, not its round trip
@@ -1038,18 +1085,22 @@ def compute(case):
         p2s = dict(zip(pix_points(reg), sky_points(sky)))
         s2p = dict(zip(sky_points(sky), pix_points(back)))
         lo, la = lonlat(skypts)
-        p2s.update(zip(zip(px.tolist(), py.tolist()), zip(lo.tolist(), la.tolist())))
-        s2p.update(zip(zip(lo.tolist(), la.tolist()), zip(np.ravel(ptsback.x).astype(float).tolist(), np.ravel(ptsback.y).astype(float).tolist())))
+        q2s = dict(zip(zip(px.tolist(), py.tolist()), zip(lo.tolist(), la.tolist())))     # kept apart: a query pixel may coincide with a region position
+        s2p.update(zip(zip(lo.tolist(), la.tolist()), zip(pind[0].tolist(), pind[1].tolist())))
+        fs = dict(zip(zip(lo.tolist(), la.tolist()), zip(np.ravel(ptsback.x).astype(float).tolist(), np.ravel(ptsback.y).astype(float).tolist())))
         loc = loc_rows(wcs, [sky])
         real['finite'] = _finite([v for k in p2s.values() for v in k], [v for k in s2p.values() for v in k], [v for r in loc.values() for v in r])
         real['notes'] = notes
+        real['ind_pts'] = [[float(a), float(b)] for a, b in zip(pind[0], pind[1])]
         # independent of the conversion: where the WCS (in its final state) puts the region's (final) positions
         fp = pix_points(fresh)
         isc = wcs.pixel_to_world(np.array([q[0] for q in fp], dtype=float), np.array([q[1] for q in fp], dtype=float))
         ilo, ila = lonlat(isc)
         real['indep'] = [[float(a), float(b)] for a, b in zip(ilo, ila)]
         real['conv'] = [[float(a), float(b)] for a, b in sky_points(sky)]
-        req = {'op': 'c06.pix', 'region': model_pix(d, fresh), 'wcs': tables_json(p2s, s2p, loc),
+        tj = tables_json(p2s, s2p, loc, fs)
+        tj['q2s'] = [[frac(F(a)), frac(F(b)), frac(F(c_)), frac(F(d_))] for (a, b), (c_, d_) in q2s.items()]
+        req = {'op': 'c06.pix', 'region': model_pix(d, fresh), 'wcs': tj,
                'pts': [[frac(F(x)), frac(F(y))] for x, y in zip(px, py)]} if real['finite'] else None
         return {'real': real, 'req': req}
     # sky -> pixel -> sky
@@ -1059,7 +1110,7 @@ def compute(case):
     d = case['region']
     frame = wcs_to_celestial_frame(wcs)
     pts = case['pts']
-    skypts = SkyCoord([p[0] for p in pts] * u.deg, [p[1] for p in pts] * u.deg, frame=frame)
+    skypts = SkyCoord([p[0] for p in pts] * u.deg, [p[1] for p in pts] * u.deg, frame=make_frame(case.get('pts_frame'), frame))
     sreg, first, notes = run_history(h, lambda dd: build_sky(dd, frame), d, wcs, wd, lambda r: r.to_pixel(wcs),
                                      lambda r: r.contains(skypts, wcs))
     fresh = build_sky(d, frame)
@@ -1072,9 +1123,11 @@ def compute(case):
     except Exception as e:
         return {'real': {'exc': f'{type(e).__name__}: {e}'}, 'req': None}
     notes['operator_replaced'] = operators_kept(sreg, pix) + operators_kept(pix, back)
-    pp = PixCoord.from_sky(skypts, wcs)
-    ppx, ppy = np.ravel(pp.x).astype(float), np.ravel(pp.y).astype(float)
-    if not _finite(pix_points(pix), sky_points(back), ppx, ppy):
+    pfs = PixCoord.from_sky(skypts, wcs)                    # the route SkyRegion.contains takes for the positions
+    xi_, yi_ = wcs.world_to_pixel(skypts)                   # the WCS image of the positions: the independent expectation
+    ppx, ppy = np.ravel(xi_).astype(float), np.ravel(yi_).astype(float)
+    pp = PixCoord(ppx, ppy)
+    if not _finite(pix_points(pix), sky_points(back), ppx, ppy, pfs.x, pfs.y):
         return {'real': {'finite': False}, 'req': None}
     ty = typed_answers(sreg, pix, skypts, pp, wcs, case.get('qshape'))
     real = {'start': canon_sky(sreg), 'pix': canon_pix(pix), 'back': canon_sky(back), 'typed': ty,
@@ -1085,6 +1138,7 @@ def compute(case):
     p2s = dict(zip(pix_points(pix), sky_points(back)))
     lo, la = lonlat(skypts)
     s2p.update(zip(zip(lo.tolist(), la.tolist()), zip(ppx.tolist(), ppy.tolist())))
+    fs = dict(zip(zip(lo.tolist(), la.tolist()), zip(np.ravel(pfs.x).astype(float).tolist(), np.ravel(pfs.y).astype(float).tolist())))
     loc = loc_rows(wcs, [sreg, back])
     real['finite'] = _finite([v for k in p2s.values() for v in k], [v for k in s2p.values() for v in k], [v for r in loc.values() for v in r])
     real['notes'] = notes
@@ -1102,7 +1156,7 @@ def compute(case):
         except Exception as e:
             real['pix2'] = {'exc': f'{type(e).__name__}: {e}'}
     real['conv'] = [[float(a), float(b)] for a, b in pix_points(pix)]
-    req = {'op': 'c06.sky', 'region': model_sky(d, fresh), 'wcs': tables_json(p2s, s2p, loc),
+    req = {'op': 'c06.sky', 'region': model_sky(d, fresh), 'wcs': tables_json(p2s, s2p, loc, fs),
            'pts': [[frac(F(x)), frac(F(y))] for x, y in zip(lo, la)]} if real['finite'] else None
     return {'real': real, 'req': req}
 
@@ -1239,7 +1293,7 @@ class Check(PropertyCheck):
         return mod.main()
     parallel = True
     level = 'proof'
-    rule = ('real astropy.wcs.WCS: TAN/SIN/CAR x linear part encoded as PC+CDELT(-s,s) / full CD matrix / parity flip inside PC with positive CDELT / CROTA2+CDELT (the same transformation) x rotation -180..180 deg x pixel scale 0.01arcsec..0.1deg (log-uniform) x both parities x '
+    rule = ('real astropy.wcs.WCS: TAN/SIN/CAR x longitude-first and (20%) LATITUDE-first world axes (DEC/RA, GLAT/GLON) x pixel scale 0.01arcsec..0.1deg, 15% very fine (1..10 mas/pix) x query positions handed over in the WCS frame or in another one (preferably the near-identical partner ICRS<->FK5 J2000, FK5 of another equinox, FK4), expectation = the pixel image at wcs.world_to_pixel(position) x linear part encoded as PC+CDELT(-s,s) / full CD matrix / parity flip inside PC with positive CDELT / CROTA2+CDELT (the same transformation) x rotation -180..180 deg x pixel scale 0.01arcsec..0.1deg (log-uniform) x both parities x '
             'ICRS/FK5/FK4/Galactic x reference latitude |lat|<85 x positions within min(300 px, 25 deg) of CRPIX; every pixel class '
             'sky regions given in a frame drawn INDEPENDENTLY of the WCS frame (icrs/fk5/fk4/galactic/barycentricmeanecliptic, 40% of them with a '
             'non-default equinox/obstime where the frame has one; 40% in the WCS frame itself), per simple component; compounds of the nothing-containing '
@@ -1272,7 +1326,7 @@ class Check(PropertyCheck):
         n_wcs = 115 if tier == 'quick' else 2000
         cases = []
         for _ in range(n_wcs):
-            wd = gen_wcs(rng)
+            wd = gen_wcs(rng, fine_p=0.15)
             wcs = build_wcs(wd)
             kinds = list(PIX_KINDS)
             rng.shuffle(kinds)
@@ -1301,7 +1355,8 @@ class Check(PropertyCheck):
     def _pix_case(self, rng, wd, d):
         leaf = self._first_leaf(d)
         pts = query_points(rng, {k: v for k, v in leaf.items() if k not in ('meta', 'visual')}, 12)
-        case = {'kind': 'pix', 'wcs': wd, 'region': d, 'pts': [[float(p[0]), float(p[1])] for p in pts], 'qshape': rng.choice(QSHAPES)}
+        case = {'kind': 'pix', 'wcs': wd, 'region': d, 'pts': [[float(p[0]), float(p[1])] for p in pts], 'qshape': rng.choice(QSHAPES),
+                'pts_frame': gen_pts_frame(rng, wd)}
         if rng.random() < HISTORY_P:
             case['history'] = gen_history(rng, wd, d, 'pix')
         return case
@@ -1318,8 +1373,12 @@ class Check(PropertyCheck):
             pd = {'kind': 'point', 'c': [wd['crpix'][0], wd['crpix'][1]]}
         pts = query_points(rng, pd, 12)
         sc = wcs.pixel_to_world(np.array([p[0] for p in pts], dtype=float), np.array([p[1] for p in pts], dtype=float))
+        pf = gen_pts_frame(rng, wd)
+        if pf is not None:
+            sc = sc.transform_to(make_frame(pf, wcs_to_celestial_frame(wcs)))
         lo, la = lonlat(sc)
-        case = {'kind': 'sky', 'wcs': wd, 'region': d, 'pts': [[float(x), float(y)] for x, y in zip(lo, la)], 'qshape': rng.choice(QSHAPES)}
+        case = {'kind': 'sky', 'wcs': wd, 'region': d, 'pts': [[float(x), float(y)] for x, y in zip(lo, la)], 'qshape': rng.choice(QSHAPES),
+                'pts_frame': pf}
         if rng.random() < HISTORY_P:
             case['history'] = gen_history(rng, wd, d, 'sky')
         return case
@@ -1353,9 +1412,11 @@ class Check(PropertyCheck):
                 return False
             d = G_desc(case['region'])
             band = band_for(case, d)
-            for p, rp, rs, mp_, ms in zip(case['pts'], real['contains_pix'], real['contains_sky'], model['contains_pix'], model['contains_sky']):
+            for p, pi, rp, rs, mp_, ms in zip(case['pts'], real.get('ind_pts') or case['pts'], real['contains_pix'], real['contains_sky'],
+                                              model['contains_pix'], model['contains_sky']):
                 _, mg = spec_contains(d, F(p[0]), F(p[1]))
-                if mg < band:
+                _, mgi = spec_contains(d, F(pi[0]), F(pi[1]))
+                if min(mg, mgi) < band:
                     continue
                 if rp != mp_ or rs != ms:
                     return False
@@ -1473,17 +1534,24 @@ class Check(PropertyCheck):
             d = G_desc(case['region'])
             d_lost = G_desc(case['region'], drop_compound_include=True)
             band = band_for(case, d)
-            for p, a, b in zip(case['pts'], real['contains_pix'], real['contains_sky']):
-                exp, mg = spec_contains(d, F(p[0]), F(p[1]))
+            for p, pi, a, b in zip(case['pts'], real.get('ind_pts') or case['pts'], real['contains_pix'], real['contains_sky']):
+                # the sky image is asked about the position that was handed over; its WCS image `pi` (independent evaluation) is the
+                # pixel position it stands for -- equal to `p` up to astropy's frame transformations not being exact inverses
+                exp, mg = spec_contains(d, F(pi[0]), F(pi[1]))
                 if mg < band:
                     continue
-                if a != b:
-                    exp_lost, _ = spec_contains(d_lost, F(p[0]), F(p[1]))
-                    if f2 and lost and b == exp_lost and a == exp:
+                if b != exp:
+                    exp_lost, _ = spec_contains(d_lost, F(pi[0]), F(pi[1]))
+                    sw, mgs = spec_contains(d, F(pi[1]), F(pi[0]))
+                    if case['wcs'].get('latfirst') and b == sw and mgs >= band:
+                        bad('latfirst_membership_swapped', f'latitude-first WCS: position {p}: the pixel region says {a}, its sky image says {b} about the '
+                            f'sky image of that position = the pixel region\'s answer at the position with x and y exchanged', f205_class=True)
+                    elif f2 and lost and b == exp_lost:
                         bad('compound_membership_changed', f'position {p}: pixel region says {a}, its sky image says {b} '
                             '(include flag of a compound node lost by to_sky)', f2_class=True)
                     else:
-                        bad('membership_not_invariant', f'position {p}: pixel region says {a}, its sky image says {b}; margin {float(mg):.3g}')
+                        bad('membership_not_invariant', f'position {p} (WCS image of the sky position handed over: {pi}): the pixel region says {exp} there '
+                            f'({a} at the position itself), its sky image says {b}; margin {float(mg):.3g}')
                     break
         else:
             band = band_for(case, real['pix_desc'])
@@ -1492,7 +1560,12 @@ class Check(PropertyCheck):
                 if mg < band:
                     continue
                 if a != b:
-                    bad('sky_contains_differs_from_pixel_image', f'pixel position {p}: SkyRegion.contains {a}, pixel image {b}; margin {float(mg):.3g}')
+                    sw, mgs = spec_contains(real['pix_desc'], F(p[1]), F(p[0]))
+                    if case['wcs'].get('latfirst') and a == sw and mgs >= band:
+                        bad('latfirst_membership_swapped', f'latitude-first WCS: the WCS maps the position to pixel {p}: SkyRegion.contains {a}, its pixel image says {b} '
+                            f'there; {a} is the pixel image\'s answer at the position with x and y exchanged', f205_class=True)
+                    else:
+                        bad('sky_contains_differs_from_pixel_image', f'the WCS maps the position to pixel {p}: SkyRegion.contains {a}, pixel image {b}; margin {float(mg):.3g}')
                     break
         return V
 
@@ -1645,6 +1718,8 @@ class Check(PropertyCheck):
         """F2 (fixed in 23f75f4; matters only if the entry is ever re-opened): a compound node whose non-empty dictionaries
         came back EMPTY, or the membership change that is exactly explained by the lost include flag.  With the entry
         `fixed`, a regression is a VIOLATION (corpus/C06/f2_compound_meta.json replays the original witness first)."""
+        if finding.get('id') == 'F205':
+            return violation.get('kind') == 'latfirst_membership_swapped' and violation.get('f205_class') is True
         if finding.get('id') == 'F204':
             return violation.get('kind') == 'foreign_frame_size_changed' and violation.get('f204_class') is True
         if finding.get('id') == 'F203':
